@@ -30,18 +30,20 @@ RULE = ("one world per seed: model (7) x grid (uniform / fixed / geometric / pro
         "jump-time mode) x n paths; variates from the seeded generators, coupling uniforms boundary-targeted in the "
         "probing step. non-trivial = >=1 level transition and >=1 odd fine increment probed; distinct = hash(model, grid, "
         "method, variant, levels, set of odd increments probed)")
-REAL = ["rpylib.process.coupling.couplingmarkovchain", "rpylib.process.coupling.couplingsde (1-d driver)",
+REAL = ["rpylib.process.coupling.couplinglevycopula (2-d)", "rpylib.process.coupling.couplingmarkovchain", "rpylib.process.coupling.couplingsde (1-d driver)",
         "rpylib.process.markovchain.markovchain", "rpylib.grid.spatial (refine)", "rpylib.montecarlo.multilevel.engine",
         "samplers, models (mass)"]
 STUB = ["coupling uniform scripted at the RNG seam during the probing step", "clock/pid/entropy seams",
         "gmpy2.qdiv, tqdm"]
 ASSUMPTIONS = ["the model's own mass() is the reference for cell masses (C09/C12 trusted); rates from create_q_vector (C01)",
-               "the n-d (Levy copula) coupling is not covered by this check",
+               "the Levy-copula coupling is covered in 2 dimensions on small fixed grids (15% of the worlds); 3-d and the "
+               "copula-driven SDE coupling are not",
                "cell boundaries are the grid's own middle() (arithmetic, or equal-probability for probability-step grids)"]
 TIERS = {
     "quick": {"worlds": 260, "wall": 520, "shrink_budget": 40,
               "required_probes": ["c03.level_transition", "c03.odd_increment_probed", "c03.even_increment_seen",
-                                  "c03.telescoping_checked", "c03.adaptive_run", "c03.sde_run"]},
+                                  "c03.telescoping_checked", "c03.adaptive_run", "c03.sde_run", "c03.nd_run",
+                                  "c03.nd_telescoping_checked", "c03.nd_odd_increment_probed", "c03.nd_odd_coordinate_seen"]},
     "thorough": {"worlds": 8000, "wall": 3300, "shrink_budget": 100,
                  "required_probes": ["c03.level_transition", "c03.odd_increment_probed", "c03.even_increment_seen",
                                      "c03.telescoping_checked", "c03.adaptive_run", "c03.sde_run", "c03.level_3"]},
@@ -114,6 +116,15 @@ def _install():
 
 def generate(seed, tier="quick"):
     r = sub_rng(seed, "c03.scenario")
+    if r.random() < 0.15:
+        from . import c02nd
+
+        proc = c02nd.generate_process(r)
+        proc["margins"] = proc["margins"][:2]  # 2-d: the refined 3-d grids are too large for a quick check
+        proc["grid"]["n"] = 4
+        return {"world_seed": seed, "process": proc, "variant": "copula", "max_level": r.choice([1, 1, 2]),
+                "n": r.choice([3, 6]), "product": {"kind": "sum", "maturity": r.choice([0.5, 1.0])}, "rmse": 1.0,
+                "seed": r.choice([None, 3])}
     model = r.choice(["hem", "hem_lowint", "hem_nosigma", "merton", "cgmy02", "cgmy12", "vg"])
     gk = r.choice(["uniform", "uniform", "fixed", "geometric", "probstep"])
     grid = {"uniform": {"kind": "uniform", "h": r.choice([0.05, 0.1, 0.08])},
@@ -137,6 +148,12 @@ def shrink_candidates(sc):
         c.update(kw)
         return c
 
+    if sc["variant"] == "copula":
+        if sc["max_level"] > 1:
+            yield mod(max_level=1)
+        if sc["n"] > 3:
+            yield mod(n=3)
+        return
     if sc["variant"] != "fixed":
         yield mod(variant="fixed")
     if sc["max_level"] > 1:
@@ -160,6 +177,8 @@ def shrink_candidates(sc):
 
 
 def execute(wd, sc):
+    if sc["variant"] == "copula":
+        return execute_nd(wd, sc)
     from rpylib.montecarlo.configuration import ConfigurationMultiLevel, compute_convergence_rates
     from rpylib.montecarlo.multilevel.engine import Engine
     from rpylib.process.coupling.couplingmarkovchain import CouplingSimulation
@@ -377,3 +396,282 @@ def execute(wd, sc):
 def summarise(sc, o):
     return {"scenario": sc, "violations": [v["sig"] for v in o["violations"]], "errors": o.get("errors", [])[:2],
             "info": o.get("info")}
+
+
+# =====================================================================================================
+# several dimensions: the Levy-copula coupling (CouplingProcessLevyCopula) - same oracles, n-d geometry
+# =====================================================================================================
+_installed_nd = False
+
+
+def _install_nd():
+    global _installed_nd
+    if _installed_nd:
+        return
+    import rpylib.process.coupling.couplinglevycopula as clc
+
+    o_next = clc.CouplingProcessLevyCopula.next_level
+
+    def next_level(self, mc_paths, path_managers, product, max_step_epsilon=None):
+        st = _st()
+        if st is None or "hook_nd" not in st:
+            return o_next(self, mc_paths, path_managers, product, max_step_epsilon)
+        ts = np.array([0.0, 1.0, 2.5])
+        before = {"level": self.level, "axes": [np.array(a, dtype=float, copy=True) for a in self.grid.axes],
+                  "origin": tuple(int(c) for c in self.grid.origin_coordinate), "h": float(self.grid.h),
+                  "diffusion_matrix": np.array(self.fine_process._path_simulation.diffusion_matrix, dtype=float, copy=True),
+                  "det_fine": np.array(self.fine_process.deterministic_path(ts), dtype=float), "mass": self.fine_process.model.mass}
+        r = o_next(self, mc_paths, path_managers, product, max_step_epsilon)
+        st["hook_nd"](before, self, path_managers)
+        return r
+
+    clc.CouplingProcessLevyCopula.next_level = next_level
+    o_slice = clc.CouplingLevyCopulaSimulation._coupling_states_for_a_slice
+
+    def slice_(self, slice_fine_states):
+        out = o_slice(self, slice_fine_states)
+        st = _st()
+        if st is not None and "slices_nd" in st:
+            st["slices_nd"].append((self.coupling_process.level, [tuple(int(i) for i in s) for s in slice_fine_states],
+                                    [np.array(x, dtype=float, copy=True) for x in out]))
+        return out
+
+    clc.CouplingLevyCopulaSimulation._coupling_states_for_a_slice = slice_
+    _installed_nd = True
+
+
+def _cell(axes, pos):
+    lo, hi = [], []
+    for k, c in enumerate(pos):
+        ax = axes[k]
+        lo.append(ax[0] if c == 0 else 0.5 * (ax[c - 1] + ax[c]))
+        hi.append(ax[-1] if c == len(ax) - 1 else 0.5 * (ax[c] + ax[c + 1]))
+    return tuple(lo), tuple(hi)
+
+
+def execute_nd(wd, sc):
+    import itertools
+
+    from rpylib.montecarlo.configuration import ConfigurationMultiLevel
+    from rpylib.montecarlo.multilevel.engine import Engine
+    from rpylib.process.coupling.couplinglevycopula import CouplingProcessLevyCopula, CouplingLevyCopulaSimulation
+    from rpylib.product.payoff import PayoffOnTheFly
+    from rpylib.product.product import Product
+    from rpylib.product.underlying import Spot
+    from . import c02nd
+
+    _install()
+    _install_nd()
+    V, errors = [], []
+    levels = {}
+    probed = set()
+    script_u = {"u": None}
+
+    def add(sig, detail):
+        if not any(v["sig"] == sig for v in V):
+            V.append({"sig": sig, "oracle": sig.split("|")[0], "detail": detail})
+
+    def script(wd_, ctx, fname, cons, a, k, val):
+        if script_u["u"] is not None and fname == "np.uniform" and "Uniform.sample" in cons:
+            wd_.faults["rng.boundary_targeted_uniform"] += 1
+            return np.full(np.asarray(val).shape, script_u["u"])
+        return val
+
+    wd.script = script
+    cls = f"copula-coupling|dim={len(sc['process']['margins'])}"
+
+    def hook_nd(before, cp, path_managers):
+        lvl = cp.level
+        wd.probes["c03.nd_level_transition"] += 1
+        axes = [np.array(a, dtype=float) for a in cp.grid.axes]
+        origin = tuple(int(c) for c in cp.grid.origin_coordinate)
+        levels[lvl] = (axes, origin)
+        levels.setdefault(before["level"], (before["axes"], before["origin"]))
+        dim = len(axes)
+        nested = all(ax.size == 2 * old.size - 1 and np.array_equal(ax[::2], old) for ax, old in zip(axes, before["axes"])) \
+            and origin == tuple(2 * o for o in before["origin"])
+        if not nested:
+            add("C03.pre|refined grid does not hold the previous grid at even indices (precondition of the coupling)|" + cls,
+                {"level": lvl})
+            return
+        # ---- c -----------------------------------------------------------------------------------------
+        if cp._diffusion_matrix_2h is None or not np.allclose(cp._diffusion_matrix_2h, before["diffusion_matrix"], rtol=0, atol=1e-14):
+            add("C03.c|coarse diffusion matrix is not the fine matrix of the previous level|" + cls, {"level": lvl})
+        if path_managers is not None:
+            ts = np.array([0.0, 1.0, 2.5])
+            pair = np.array(path_managers[-1].deterministic_path(ts), dtype=float)
+            if not np.allclose(pair[1], before["det_fine"], rtol=1e-12, atol=1e-12):
+                add("C03.c|coarse deterministic path is not the fine deterministic path of the previous level|" + cls, {"level": lvl})
+        # ---- b: the implementation's projection probabilities, then the telescoping sum -------------------
+        mass = cp.model.mass  # the mass function the coupling itself uses
+        mass_f = cp.fine_process.model.mass
+        mass_c = before["mass"]
+        sizes = [len(a) for a in axes]
+        ctx = wd.current
+        saved = ctx.nprs.get_state(legacy=True)
+        try:
+            probe = copy.deepcopy(cp)
+            sim = CouplingLevyCopulaSimulation(coupling_process=probe)
+            g = sub_rng(wd.seed, f"c03nd.probe.{lvl}")
+            agg = {}
+            odd_states = []
+            for pos in itertools.product(*[range(n) for n in sizes]):
+                if pos == origin:
+                    continue
+                lo, hi = _cell(axes, pos)
+                qf = float(mass_f(a=lo, b=hi))
+                inc = tuple(c - o for c, o in zip(pos, origin))
+                O = [k for k in range(dim) if inc[k] % 2 != 0]
+                if not O:
+                    y = tuple(c // 2 for c in pos)
+                    agg[y] = agg.get(y, 0.0) + qf
+                    continue
+                if any(pos[k] == 0 or pos[k] == sizes[k] - 1 for k in O):
+                    continue  # cannot happen on a nested grid (end points are even)
+                odd_states.append((pos, inc, O))
+                pv = tuple(axes[k][pos[k]] for k in O)
+                ml_ = tuple(0.5 * (axes[k][pos[k] - 1] + axes[k][pos[k]]) for k in O)
+                mr_ = tuple(0.5 * (axes[k][pos[k]] + axes[k][pos[k] + 1]) for k in O)
+                total = float(mass(ml_, mr_, list(O)))
+                for corner in itertools.product([-1, 1], repeat=len(O)):
+                    cv = tuple(axes[k][pos[k] + s] for k, s in zip(O, corner))
+                    mid = tuple(0.5 * (a_ + b_) for a_, b_ in zip(cv, pv))
+                    lo_c = tuple(min(a_, b_) for a_, b_ in zip(pv, mid))
+                    hi_c = tuple(max(a_, b_) for a_, b_ in zip(pv, mid))
+                    pc = float(mass(lo_c, hi_c, list(O))) / total if total > 0 else 0.0
+                    ypos = list(pos)
+                    for k, s in zip(O, corner):
+                        ypos[k] = pos[k] + s
+                    y = tuple(c // 2 for c in ypos)
+                    agg[y] = agg.get(y, 0.0) + qf * pc
+            # boundary-targeted uniforms on a sample of odd states: the implementation uses exactly these thresholds
+            for (pos, inc, O) in g.sample(odd_states, min(len(odd_states), 6)):
+                pv = tuple(axes[k][pos[k]] for k in O)
+                ml_ = tuple(0.5 * (axes[k][pos[k] - 1] + axes[k][pos[k]]) for k in O)
+                mr_ = tuple(0.5 * (axes[k][pos[k]] + axes[k][pos[k] + 1]) for k in O)
+                total = float(mass(ml_, mr_, list(O)))
+                if not total > 0:
+                    continue
+                cum = 0.0
+                corners = list(itertools.product([-1, 1], repeat=len(O)))
+                wd.probes["c03.nd_odd_increment_probed"] += 1
+                probed.add((lvl, inc))
+                for ci_, corner in enumerate(corners[:-1]):
+                    cv = tuple(axes[k][pos[k] + s] for k, s in zip(O, corner))
+                    mid = tuple(0.5 * (a_ + b_) for a_, b_ in zip(cv, pv))
+                    lo_c = tuple(min(a_, b_) for a_, b_ in zip(pv, mid))
+                    hi_c = tuple(max(a_, b_) for a_, b_ in zip(pv, mid))
+                    cum += float(mass(lo_c, hi_c, list(O))) / total
+                    for u, which in ((cum - DELTA, ci_), (cum + DELTA, ci_ + 1)):
+                        if not (0.0 < u < 1.0):
+                            continue
+                        script_u["u"] = u
+                        try:
+                            out = sim._coupling_states_for_a_slice([inc])
+                        finally:
+                            script_u["u"] = None
+                        got = np.asarray(out[0], dtype=float)
+                        exp_pos = list(pos)
+                        for k, s in zip(O, corners[which]):
+                            exp_pos[k] = pos[k] + s
+                        exp = np.array([axes[k][exp_pos[k]] for k in range(dim)])
+                        if not np.allclose(got, exp, rtol=0, atol=1e-12):
+                            add("C03.b|projection probabilities of an odd fine state are not the corner masses in the corner order|" + cls,
+                                {"level": lvl, "increment": list(inc), "u": u, "got": got.tolist(), "expected": exp.tolist()})
+            # telescoping against the previous level's chain
+            worst, werr, wy = 0.0, 0.0, None
+            old_axes, old_origin = before["axes"], before["origin"]
+            scale = 0.0
+            for y in itertools.product(*[range(len(a)) for a in old_axes]):
+                if y == old_origin:
+                    continue
+                lo, hi = _cell(old_axes, y)
+                qc = float(mass_c(a=lo, b=hi))
+                scale = max(scale, abs(qc))
+                e = abs(agg.get(y, 0.0) - qc)
+                if e > werr:
+                    werr, wy, worst = e, y, qc
+            wd.probes["c03.nd_telescoping_checked"] += 1
+            if werr > 1e-7 * (1.0 + scale):
+                indep = sc["process"]["copula"]["kind"] == "independent"
+                add(f"C03.b|fine rates pushed through the coupling do not give the coarse chain's rates|{'independent-copula' if indep else 'dependent-copula'}|" + cls,
+                    {"level": lvl, "coarse_state": list(wy), "pushed": agg.get(wy, 0.0), "coarse_rate": worst,
+                     "relative_error": werr / (abs(worst) + 1e-300)})
+        except HarnessError:
+            raise
+        except Exception as e:
+            import traceback
+
+            errors.append({"kind": type(e).__name__, "msg": f"probe at level {lvl}: " + str(e)[:140],
+                           "where": traceback.extract_tb(e.__traceback__)[-1].name})
+        finally:
+            ctx.nprs.set_state(saved)
+            ctx.fp_np = __import__("simkit.world", fromlist=["fp_np"]).fp_np(ctx.nprs)
+
+    wd.c03 = {"transitions": [], "slices": [], "hook": lambda *a: None, "hook_nd": hook_nd, "slices_nd": []}
+    try:
+        spec = sc["process"]
+        chain = c02nd.build_copula_process(spec)  # builds model + grid the same way; the coupling gets its own grid below
+        from rpylib.grid.spatial import CTMCUniformGrid
+        from rpylib.distribution.sampling import SamplingMethod
+
+        grid = CTMCUniformGrid.create_from_fixed_nb_of_points(h=spec["grid"]["h"], nb_of_points=spec["grid"]["n"],
+                                                              dimension=len(spec["margins"]))
+        # the chain's (truncated, tilde) model is a copy: take the pristine model from a fresh build
+        lcm = _pristine_copula_model(spec)
+        cp = CouplingProcessLevyCopula(lcm, grid, SamplingMethod[c02nd.ND_METHODS[spec["method"]]])
+        product = Product(payoff_underlying=Spot(), payoff=PayoffOnTheFly(lambda u: float(np.sum(u))),
+                          maturity=sc["product"]["maturity"])
+        cfg = ConfigurationMultiLevel(initial_level=0, maximum_level=sc["max_level"], initial_mc_paths=sc["n"],
+                                      nb_of_processes=1, seed=sc["seed"])
+        Engine(cfg, cp).price_with_constant_mc_paths_and_level(product)
+        wd.probes["c03.nd_run"] += 1
+    except HarnessError:
+        wd.script = None
+        raise
+    except Exception as e:
+        import traceback
+
+        errors.append({"kind": type(e).__name__, "msg": str(e)[:140], "where": traceback.extract_tb(e.__traceback__)[-1].name})
+        wd.probes["c03.run_raised"] += 1
+    wd.script = None
+    # ---- a: coupled jumps --------------------------------------------------------------------------------
+    for (lvl, incs, cums) in wd.c03["slices_nd"]:
+        if lvl not in levels:
+            continue
+        axes, origin = levels[lvl]
+        prev = np.zeros(len(axes))
+        for inc, cum in zip(incs, cums):
+            cj = np.asarray(cum, dtype=float) - prev
+            prev = np.asarray(cum, dtype=float)
+            pos = tuple(o + i for o, i in zip(origin, inc))
+            for k in range(len(axes)):
+                x = axes[k][pos[k]]
+                if inc[k] % 2 == 0:
+                    if abs(cj[k] - x) > 1e-12 * (1 + abs(x)):
+                        add("C03.a|an even coordinate of a fine jump is not copied unchanged|in-path|" + cls,
+                            {"level": lvl, "increment": list(inc), "coordinate": k, "coarse": float(cj[k]), "fine": float(x)})
+                else:
+                    left, right = axes[k][pos[k] - 1], axes[k][pos[k] + 1]
+                    wd.probes["c03.nd_odd_coordinate_seen"] += 1
+                    if abs(cj[k] - left) > 1e-12 and abs(cj[k] - right) > 1e-12:
+                        add("C03.a|an odd coordinate of a fine jump is not moved to an adjacent coarse state|in-path|" + cls,
+                            {"level": lvl, "increment": list(inc), "coordinate": k, "coarse": float(cj[k])})
+    key = hashlib.sha256(repr((sc["process"], sc["max_level"], sorted(levels), sorted(probed))).encode()).hexdigest()[:16]
+    return {"violations": V, "errors": errors, "info": {"levels": sorted(levels), "probed": len(probed)}, "key": key,
+            "nontrivial": bool(levels) and bool(probed)}
+
+
+def _pristine_copula_model(spec):
+    from rpylib.model.levymodel.levymodel import ModelType
+    from rpylib.model.utils import create_exponential_of_levy_model, create_levy_copula_model, create_clayton_copula, \
+        create_independent_copula
+    from . import c02nd
+
+    models = []
+    for name in spec["margins"]:
+        mt, kw = c02nd.MARGINS[name]
+        models.append(create_exponential_of_levy_model(ModelType[mt])(**kw))
+    cop = spec["copula"]
+    copula = create_independent_copula() if cop["kind"] == "independent" else create_clayton_copula(theta=cop["theta"], eta=cop["eta"])
+    return create_levy_copula_model(models, copula)
